@@ -83,12 +83,37 @@ Print Assumptions C21_blocked_only_when_empty.
    observed sequential history that prop_C21 accepts is FIFO / exactly-once (and loss-free without Release).
    (In concurrent-transfer mode prop_C21 directly demands: received = all written data, then io.EOF.) *)
 Theorem C21_prop_implies_fifo : forall i o cap ops outs,
-  conc_mode i = false ->
+  pool_mode i = false -> conc_mode i = false ->
   decode_input i = Some (cap, ops) -> decode_outs o = Some outs -> prop_C21 i o = true ->
   is_prefix_of (concat (reads outs)) (concat (accepted_writes ops outs)) /\
   (~ In ORelease ops -> exists rest, concat (accepted_writes ops outs) = concat (reads outs) ++ rest).
 Proof. exact prop_implies_fifo. Qed.
 Print Assumptions C21_prop_implies_fifo.
+
+(* BUFFER REUSE.  Release resets the FixedBuffer and returns it to the pool; the next pipe built from the pool
+   (pipe.NewPipeFromBufferPool, as bfe_http2 / bfe_spdy do for request bodies) runs on that very buffer.
+   [run_gens cap pool gens] runs one pipe history after the other, every pipe taking its buffer from the pool
+   (fresh when the pool is empty) and Release pushing the reset buffer back - whatever read/write indices and
+   contents the previous pipe left behind.  For every capacity, every pool of reset buffers and every list of
+   histories: each pipe's observations, on their own, are a history of a FRESH FIFO specification (so it delivers
+   exactly its own bytes, in order, once: nothing of an earlier pipe leaks in, nothing of the new data is lost),
+   and there is exactly one observation per call. *)
+Theorem C21_pool_reuse_fresh : forall cap gens pool, pool_ok cap pool ->
+  Forall2 (fun g outs => spec_ok cap g outs = true /\ length outs = length g) gens (run_gens cap pool gens).
+Proof. exact (fun cap gens pool => run_gens_ok cap gens pool). Qed.
+Print Assumptions C21_pool_reuse_fresh.
+
+(* Why Reset must rewind BOTH indices (non-vacuity of the above): with a Reset that only rewinds the write index,
+   a pipe released after a partial read of 2 bytes hands on a buffer on which "hello" reads back as "llo";
+   with the real Reset it reads back "hello". *)
+Example C21_reset_w_only_breaks :
+  let b1 := fst (fst (fb_write (fb_new 8) [104;101;108;108;111])) in
+  let b2 := fst (fst (fb_read b1 2)) in
+  snd (run_from (pipe_from (fb_reset_w_only b2)) [OWrite [104;101;108;108;111]; ORead 8])
+    = [BWrite 5 0; BRead 3 [108;108;111] 0 0] /\
+  snd (run_from (pipe_from (fb_reset b2)) [OWrite [104;101;108;108;111]; ORead 8])
+    = [BWrite 5 0; BRead 5 [104;101;108;108;111] 0 0].
+Proof. exact reset_w_only_breaks. Qed.
 
 (* Central shape: the model satisfies the executable property (the FIFO specification spec_step, which
    has no indices and no sliding) on every well-formed input; there is no known-finding class. *)
